@@ -1,7 +1,7 @@
 """Obligations shared by C01 / C02 / C03 / C19: the graph-rewriting carriers under the sidecar contracts of contracts/graph.py."""
 import z3
 from vlib import core, pyvc
-from contracts import graph, performer, names, signature, tensorinfo, vertical
+from contracts import graph, performer, names, signature, tensorinfo, vertical, compose
 from replay import graph_native
 
 TU, DI, QI, QT = 'transformations/transformation_utils.py', 'transformations/dequant_insert.py', 'transformations/quant_insert.py', 'transformations/quantize_tensor.py'
@@ -213,6 +213,157 @@ def produce_obligations(rep, prop):
         except pyvc.Unsupported as e: rep.canary(name, True, str(e))
     return obs
 
+PO_Q = 'TransformationInstructionsGenerator._produce_consumer_transformations_unavailable_for_vertical_opt'
+def _po_native(case):
+    """the REAL second builder on real qtyping objects.  case: consumers=[(op id, [transformations], param key)], depths=[[[positions]]] = consumer_group[1:], natively against the contract text"""
+    import types
+    g, qt, PAR = _vo_mods(); T = qt.QuantTransformation
+    cons = [qt.OpToTensorParams(subgraph_op_id=o, transformations=[T(t) for t in trs], parameters=PAR[pk]) for (o, trs, pk) in case['consumers']]
+    param = qt.TensorTransformationParams(tensor_name='t', producer=None, consumers=cons)
+    info = g.TransformationInstructionsGenerator.TensorGraphInfo(5, 0, 2, [c[0] for c in case['consumers']]); self_ = types.SimpleNamespace(_tensor_name_to_graph_info={'t': info})
+    cg = [[set(range(len(cons)))]] + [[set(grp) for grp in lvl] for lvl in case['depths']]
+    try: out = g.TransformationInstructionsGenerator._produce_consumer_transformations_unavailable_for_vertical_opt(self_, cg, param)
+    except Exception as e: return dict(confirmed=True, inputs=case, violated=[f'raised {type(e).__name__}: {e}'])
+    bad = []
+    for k, inst in enumerate(out):
+        ok = False
+        for d in range(2, len(cg)):
+            for grp in cg[d]:
+                ops = [cons[i].subgraph_op_id for i in grp]
+                if sorted(inst.consumers) != sorted(ops): continue
+                first = next(i for i in grp if cons[i].subgraph_op_id == inst.consumers[0])
+                if len(cons[first].transformations) > d - 1 and inst.transformation == cons[first].transformations[d - 1] and inst.parameters is cons[first].parameters and (inst.tensor_id, inst.producer) == (5, 2): ok = True
+        if not ok: bad.append(f'instruction {k} ({inst.transformation}, consumers {list(inst.consumers)}) was not built for any group of depth >= 2 as the contract states')
+    return dict(confirmed=bool(bad), inputs=case, violated=bad[:4])
+def _po_search(label=None):
+    pool = [(10, [1, 2], 0), (7, [2, 1, 0], 2), (3, [1], 1), (12, [1, 2, 3], 2)]
+    for n in (1, 2, 3, 4):
+        cons = pool[:n]; allp = list(range(n)); two = [i for i in allp if len(cons[i][1]) >= 2]; three = [i for i in allp if len(cons[i][1]) >= 3]
+        for depths in ([[allp]], [[allp], [two]] if two else None, [[allp], [[i] for i in two]] if two else None, [[allp], [two], [three]] if three else None, [[allp], [[i] for i in two], [[i] for i in three]] if three else None,
+                       [[allp], [allp]], [[allp], [two], [two]] if two else None):
+            if depths is None: continue
+            r = _po_native(dict(consumers=[(o, list(t), k) for o, t, k in cons], depths=depths))
+            if r['confirmed']: return r
+    return None
+PO_CANARIES = [('_produce_consumer_transformations_unavailable_for_vertical_opt: transformation of depth d instead of d - 1', "                param.consumers[op_list[0]].transformations[\n                    transformation_idx - 1\n                ],", "                param.consumers[op_list[0]].transformations[\n                    transformation_idx - 2\n                ],"),
+               ('_produce_consumer_transformations_unavailable_for_vertical_opt: positions instead of operator ids', "          op_idx_list.append(param.consumers[index].subgraph_op_id)\n        other_consumer_transformations.append(", "          op_idx_list.append(index)\n        other_consumer_transformations.append("),
+               ('_produce_consumer_transformations_unavailable_for_vertical_opt: length guard off by one', "            <= transformation_idx - 1\n", "            < transformation_idx - 1\n")]
+def other_obligations(rep, prop):
+    obs = pyvc.verify(rep, prop, core.Fn(TIG, PO_Q), vertical.ProduceOther(), select=None, replay=lambda mv, label: _po_search(label) or dict(confirmed=False, inputs=mv), fallback=_po_search)
+    src = core.read_source(TIG)
+    for name, a, b in (PO_CANARIES if rep.tier == 'thorough' else PO_CANARIES[rep.seed % 3:rep.seed % 3 + 1]):
+        if a not in src: rep.canary(name, False, 'mutation site not found (stale canary)'); continue
+        try:
+            E = pyvc.run_function(core.Fn(TIG, PO_Q, src_override=src.replace(a, b, 1)), vertical.ProduceOther())
+            bad = [ob.label for ob, st, dt, det, mv in pyvc.decide_parallel(E, E.spec, timeout=10000, canary=True) if st != 'proved']; rep.canary(name, bool(bad), str(bad[:3]))
+        except pyvc.Unsupported as e: rep.canary(name, True, str(e))
+    return obs
+
+# ------------------------------------------------------------------------------------------------ composition of the instruction generator (contracts/compose.py)
+QP_Q = 'TransformationInstructionsGenerator._quant_params_to_transformation_insts'
+def _qp_native(case):
+    """the REAL _quant_params_to_transformation_insts on real qtyping objects with the REAL callees, each wrapped by a recorder; the composition contract is evaluated on what the callees
+    were given and what they returned.  case: producer = None | ([transformations], param key), consumers = [(op id, [transformations], param key)], info_consumers = [...]"""
+    g, qt, PAR = _vo_mods(); T = qt.QuantTransformation; G = g.TransformationInstructionsGenerator
+    cons = [qt.OpToTensorParams(subgraph_op_id=o, transformations=[T(t) for t in trs], parameters=PAR[pk]) for (o, trs, pk) in case['consumers']]
+    prod = None if case['producer'] is None else qt.OpToTensorParams(subgraph_op_id=2, transformations=[T(t) for t in case['producer'][0]], parameters=PAR[case['producer'][1]])
+    param = qt.TensorTransformationParams(tensor_name='t', producer=prod, consumers=cons)
+    info = G.TensorGraphInfo(5, 4, 2, list(case['info_consumers'])); obj = object.__new__(G); obj._tensor_name_to_graph_info = {'t': info}
+    rec = []
+    def spy(name):
+        real = getattr(G, name)
+        def w(*a):
+            snap = [list(x) if isinstance(x, list) else x for x in a]
+            try: r = real(obj, *a)
+            except Exception as e: rec.append((name, a, snap, ('raised', e))); raise
+            rec.append((name, a, snap, ('ret', r, list(r) if isinstance(r, list) else None))); return r
+        setattr(obj, name, w)
+    for nme in ('_group_consumer_transformations', '_produce_transformation_for_vertical_opt', '_produce_consumer_transformations_unavailable_for_vertical_opt', '_apply_vertical_optimization', '_check_tensor_transformation_instructions_valid'): spy(nme)
+    bad = []
+    try: out = G._quant_params_to_transformation_insts(obj, param); raised = None
+    except Exception as e: out = None; raised = e
+    by = {}
+    for r in rec: by.setdefault(r[0], []).append(r)
+    one = lambda n: by[n][0] if len(by.get(n, [])) == 1 else None
+    gr, av, ot, vo, va = (one(n) for n in ('_group_consumer_transformations', '_produce_transformation_for_vertical_opt', '_produce_consumer_transformations_unavailable_for_vertical_opt', '_apply_vertical_optimization', '_check_tensor_transformation_instructions_valid'))
+    if raised is not None:
+        if not (isinstance(raised, ValueError) and va is not None and va[3][0] == 'raised' and rec[-1] is va): bad.append(f'raised {type(raised).__name__}: {raised} (only the validity check may raise)')
+        return dict(confirmed=bool(bad), inputs=case, violated=bad)
+    np_ = 0 if prod is None else len(prod.transformations)
+    if gr is None or av is None or ot is None or va is None or (vo is None) != (np_ == 0): bad.append('each of grouping / the two builders / validity check must be called exactly once, the vertical optimisation iff there is a producer transformation: ' + str([r[0] for r in rec]))
+    else:
+        Gv = gr[3][1]; A = av[3][1]; O = ot[3][1]
+        if gr[1][0] is not param or av[1][0] is not Gv or av[1][1] is not param or ot[1][0] is not Gv or ot[1][1] is not param: bad.append('a builder was not called with (the grouping of this param, param)')
+        if out.tensor_name != 't' or out.subgraph_id != 4: bad.append(f'record carries ({out.tensor_name}, {out.subgraph_id}), contract says (t, 4)')
+        if va[1][0] is not out or va[2][0] is not out or rec[-1] is not va: bad.append('the validity check must be the last call, on the returned record')
+        L = out.instructions
+        if np_ == 0: exp = list(av[3][2]) + list(ot[3][2])
+        else:
+            P, RL = vo[1]; R = vo[3][1]
+            if RL is not A: bad.append('the vertical optimisation did not get the instructions available for vertical optimisation')
+            if (P.transformation, P.tensor_id, P.producer, P.parameters) != (prod.transformations[-1], 5, 2, prod.parameters) or P.consumers is not info.consumers: bad.append('the vertical optimisation did not get the rule of the LAST producer transformation (graph-info tensor id / producer / consumer list object, producer parameters)')
+            exp = [None] * (np_ - 1) + list(vo[3][2]) + list(ot[3][2])
+            for k in range(min(np_ - 1, len(L))):
+                o = L[k]
+                if (o.transformation, o.tensor_id, o.producer, o.parameters) != (prod.transformations[k], 5, 2, prod.parameters) or o.consumers is not info.consumers: bad.append(f'entry {k} is not the rule of producer transformation {k}')
+        if len(L) != len(exp): bad.append(f'{len(L)} instructions, contract says {len(exp)}')
+        for k, (o, e) in enumerate(zip(L, exp)):
+            if e is not None and o is not e: bad.append(f'entry {k} is not the object the contract names (callee results in order)')
+    return dict(confirmed=bool(bad), inputs=case, violated=bad[:4])
+def _qp_search(label=None):
+    import itertools
+    pool = [(10, [1], 0), (7, [1, 2], 2), (3, [0], 1), (12, [1], 1)]
+    for producer in (None, ([2], 0), ([3, 2], 0), ([1], 2), ([], 0), ([3, 3, 2], 1)):
+        for sel in ([], [0], [0, 1], [0, 3], [2], [1, 3], [0, 1, 3], [2, 2]):
+            for extra in ([], [-1]):
+                consd = [pool[i] for i in sel]
+                r = _qp_native(dict(producer=None if producer is None else (list(producer[0]), producer[1]), consumers=[(o, list(t), k) for o, t, k in consd], info_consumers=extra + [c[0] for c in consd]))
+                if r['confirmed']: return r
+    return None
+QP_CANARIES = [('_quant_params_to_transformation_insts: last producer rule not popped (kept AND handed to the vertical optimisation)', 'transformations.pop(),', 'transformations[-1],'),
+               ('_quant_params_to_transformation_insts: vertical optimisation only with at least two producer rules', 'if last_producer_rule_idx >= 0:', 'if last_producer_rule_idx > 0:'),
+               ('_quant_params_to_transformation_insts: instructions unavailable for vertical optimisation dropped', '    transformations += other_consumer_transformations\n', '    pass\n'),
+               ('_quant_params_to_transformation_insts: validity check runs before the instruction list is set', '    tensor_trans_insts.instructions = transformations\n', '    self._check_tensor_transformation_instructions_valid(tensor_trans_insts)\n    tensor_trans_insts.instructions = transformations\n')]
+GEN_FRAMES = [('TransformationInstructionsGenerator._group_consumer_transformations', ['self', 'param']),
+              ('TransformationInstructionsGenerator._produce_consumer_transformations_unavailable_for_vertical_opt', ['self', 'consumer_group', 'param'])]
+def generator_frame_obligations(rep, prop):
+    """the two callees of _quant_params_to_transformation_insts that have no functional contract yet: what the composition proof assumes about them (they write nothing that exists at the call, and
+    return a list created in the call) is discharged here — frames by the interprocedural may-mutate analysis of vlib/effects.py (the C14 front end), the returned value by a pattern on the real AST"""
+    import ast, time
+    from vlib import effects
+    from props.C14 import decide_frame
+    A = effects.Analysis(core.PKG).run(); out = []
+    for qual, params in GEN_FRAMES:
+        fn = rep.fn(core.Fn(TIG, qual)); key = (TIG, qual)
+        for p_ in params:
+            t0 = time.time()
+            if key not in A.prog.fns or p_ not in A.prog.fns[key].all_params: st, detail = core.UNKNOWN, 'function or parameter not found (signature changed)'
+            else: st, detail, _ = decide_frame(A, key, p_)
+            out.append(core.Ob(f'{prop}/{fn.name}/frame.{p_}', fn, 'frame-analysis(effects)', st, time.time() - t0, detail=detail, clause=f'modifies({qual.split(".")[-1]}) contains nothing reachable from argument `{p_}` (assumed by the composition contract of _quant_params_to_transformation_insts)'))
+        rets = [n for n in ast.walk(fn.node) if isinstance(n, ast.Return)]; names = {r.value.id for r in rets if isinstance(r.value, ast.Name)}
+        binds = {}
+        for n in ast.walk(fn.node):
+            if isinstance(n, (ast.Assign, ast.AugAssign, ast.AnnAssign)):
+                for t in (n.targets if isinstance(n, ast.Assign) else [n.target]):
+                    if isinstance(t, ast.Name) and t.id in names: binds.setdefault(t.id, []).append(n)
+        ok = bool(rets) and all(isinstance(r.value, ast.List) or (isinstance(r.value, ast.Name) and len(binds.get(r.value.id, [])) == 1 and isinstance(binds[r.value.id][0], ast.Assign) and isinstance(binds[r.value.id][0].value, ast.List)) for r in rets) \
+             and not any(isinstance(n, (ast.Yield, ast.YieldFrom)) for n in ast.walk(fn.node)) and isinstance(fn.node.body[-1], ast.Return)
+        out.append(core.Ob(f'{prop}/{fn.name}/returns-a-list-created-in-the-call', fn, 'ast-dataflow', core.PROVED if ok else core.REFUTED, 0.0, clause='every return statement returns a list display or a local bound exactly once, to a list display; the body ends with a return (never None, never an argument)'))
+    for o in out: rep.add(o)
+    return out
+def compose_obligations(rep, prop):
+    obs = pyvc.verify(rep, prop, core.Fn(TIG, QP_Q), compose.QuantParamsToInsts(), select=None, replay=lambda mv, label: _qp_search(label) or dict(confirmed=False, inputs=mv), fallback=_qp_search)
+    obs += other_obligations(rep, prop)
+    obs += generator_frame_obligations(rep, prop)
+    src = core.read_source(TIG)
+    for name, a, b in (QP_CANARIES if rep.tier == 'thorough' else [QP_CANARIES[(rep.seed + k) % len(QP_CANARIES)] for k in (0, 2)]):
+        if a not in src: rep.canary(name, False, 'mutation site not found (stale canary)'); continue
+        try:
+            E = pyvc.run_function(core.Fn(TIG, QP_Q, src_override=src.replace(a, b, 1)), compose.QuantParamsToInsts())
+            bad = [ob.label for ob, st, dt, det, mv in pyvc.decide_parallel(E, E.spec, timeout=10000, canary=True) if st != 'proved']; rep.canary(name, bool(bad), str(bad[:3]))
+        except pyvc.Unsupported as e: rep.canary(name, True, str(e))
+    return obs
+
 PERF = 'transformation_performer.py'
 _as_cases = []
 def _search_apply_single(label):
@@ -255,6 +406,7 @@ def orchestration_obligations(rep, prop):
             'self._remap_signature_outputs(tflite_model, subgraph_outputs_before)']
     ok = body == want
     out.append(core.Ob(f'{prop}/{tg.name}/orchestration.reset-create-snapshot-apply-all-remap', tg, 'ast-dataflow', core.PROVED if ok else core.REFUTED, 0.0, detail=str(body), clause='maps reset and created for this model; outputs snapshotted before any transformation; every instruction list applied once; signatures remapped with the snapshot'))
+    for o in out: rep.add(o)            # (these three were computed but never added to the report before this line existed)
     return out
 def performer_canaries(rep):
     src = core.read_source(PERF)
